@@ -310,7 +310,7 @@ func c15(e *Env) {
 	c.Floor("table-immutability", 40)
 	c.Floor("determinism", 12)
 	c.Floor("constructor-fresh", 10)
-	c.Floor("package-vars", 130)
+	c.Floor("package-vars", 60) // every declared variable is an instance: the floor only guards against packages not being loaded (merging tables lowers the count legitimately)
 }
 
 func c16(e *Env) {
@@ -325,7 +325,7 @@ func c16(e *Env) {
 	e.templatePrivate("private-template")
 	c.Floor("pure-query", 250)
 	c.Floor("table-immutability", 40)
-	c.Floor("package-vars", 130)
+	c.Floor("package-vars", 60) // every declared variable is an instance: the floor only guards against packages not being loaded (merging tables lowers the count legitimately)
 	c.Floor("private-template", 2)
 }
 
